@@ -119,6 +119,11 @@ func TestC15(t *testing.T) {
 	rep := ev.NewReporter("C15", "exploration")
 	thorough := ev.Thorough()
 
+	replayPath := os.Getenv("VERIF_REPLAY")
+	if replayPath != "" {
+		replayPath, _ = filepath.Abs(replayPath) // before the working directory changes
+	}
+
 	// ---- process-global state under control ----------------------------------------------------------
 	root, err := os.MkdirTemp("/dev/shm", "verif-c15-")
 	if err != nil {
@@ -167,8 +172,8 @@ func TestC15(t *testing.T) {
 		st: &stats{perPart: map[string]int64{}, winners: map[string]int64{}, errOutcomes: map[string]int64{}}}
 
 	// ---- replay of one stored case --------------------------------------------------------------------
-	if p := os.Getenv("VERIF_REPLAY"); p != "" {
-		c.replay(p)
+	if replayPath != "" {
+		c.replay(replayPath)
 		return
 	}
 
@@ -380,11 +385,9 @@ func (c *checker) partEnvNames(s *structSpec, prefix string) []string {
 			replay := map[string]any{"scenario": sc, "candidate": cand, "reported_names": sortedNames(reported), "details": out.Details, "loaded": fmt.Sprintf("%v", out.Got)}
 			if honoured {
 				honouredAny = true
-				if !reported[cand.name] {
-					c.rep.Violation(fmt.Sprintf("envnames:honoured-not-reported:form=%s:tag=%s:prefix=%s", cand.form, tc, emptiness(prefix)), replay)
-				}
-			} else if reported[cand.name] {
-				c.rep.Violation(fmt.Sprintf("envnames:reported-not-honoured:form=%s:tag=%s:prefix=%s", cand.form, tc, emptiness(prefix)), replay)
+			}
+			if sig := envNameVerdict(cand, tc, prefix, honoured, reported[cand.name]); sig != "" {
+				c.rep.Violation(sig, replay)
 			}
 			if c.nameSamples < 2 && cand.form == "canonical" && i == len(s.Fields)-1 && (prefix == "my-app" || prefix == "") && s.Depth == 3 {
 				c.nameSamples++
@@ -404,6 +407,17 @@ func (c *checker) partEnvNames(s *structSpec, prefix string) []string {
 		}
 	}
 	return names
+}
+
+// envNameVerdict: the reported names are exactly the honoured ones.
+func envNameVerdict(cand candidate, tc, prefix string, honoured, reported bool) string {
+	switch {
+	case honoured && !reported:
+		return fmt.Sprintf("envnames:honoured-not-reported:form=%s:tag=%s:prefix=%s", cand.form, tc, emptiness(prefix))
+	case !honoured && reported:
+		return fmt.Sprintf("envnames:reported-not-honoured:form=%s:tag=%s:prefix=%s", cand.form, tc, emptiness(prefix))
+	}
+	return ""
 }
 
 func sortedNames(m map[string]bool) []string {
@@ -712,7 +726,8 @@ func (c *checker) replay(path string) {
 	var stored struct {
 		Signature string `json:"signature"`
 		Replay    struct {
-			Scenario *scenario `json:"scenario"`
+			Scenario  *scenario         `json:"scenario"`
+			Candidate map[string]string `json:"candidate"`
 		} `json:"replay"`
 	}
 	if err := json.Unmarshal(b, &stored); err != nil || stored.Replay.Scenario == nil {
@@ -729,6 +744,28 @@ func (c *checker) replay(path string) {
 	out := c.run.run(s, sc)
 	if out.Panic != "" {
 		fmt.Printf("replay: %s\n", out.Panic)
+	}
+	if sc.Part == "envnames" && sc.Target >= 0 && sc.Target < len(s.Fields) && out.Panic == "" {
+		// a probe: one candidate spelling set alone; compared with what DetermineConfigurationEnvironmentVariables reports
+		f := s.Fields[sc.Target]
+		full := s.newPtr()
+		fillAll(s, full)
+		reported, _ := config.DetermineConfigurationEnvironmentVariables(sc.Prefix, full)
+		cand := candidate{form: stored.Replay.Candidate["form"], name: sc.EnvNames[sc.Target]}
+		honoured := len(out.Mismatches) == 0
+		_, isReported := reported[cand.name]
+		tc := tagClass(s, f, sc.Prefix)
+		if tc == "colliding" {
+			tc = "regular"
+		}
+		fmt.Printf("probe: variable %q set alone: honoured=%v reported=%v; loaded=%v\n", cand.name, honoured, isReported, out.Got)
+		if sig := envNameVerdict(cand, tc, sc.Prefix, honoured, isReported); sig != "" {
+			fmt.Printf("VIOLATION property=C15 replay=%s signature=%s\n", path, sig)
+			ev.ExitCode = 1
+		} else {
+			fmt.Println("replay: no violation")
+		}
+		return
 	}
 	d, _ := json.MarshalIndent(map[string]any{"stored_signature": stored.Signature, "mismatches": out.Mismatches, "validation_clause": out.ValSig, "details": out.Details}, "", " ")
 	fmt.Printf("%s\n", d)
